@@ -13,6 +13,7 @@ EXPLANATION = (
     "one scale constant."
     " (R17.7) composition in VisualVoting: the track won by appearance is the track excluded from the Hungarian stage; (R17.8) the running maximum is fed only by distances that exist in the stream (a stand-in for a missing distance never becomes the 'largest distance seen')."
     ' (R17.9) the stream the engines consume is read by blocking receives only (no is_empty / try_recv / size_hint peeks at the channel); (R17.10) Hungarian weights are 64-bit fixed point.')
+EXPLANATION += ' (R17.11) TopNVoting::new / BestFitVoting::new store topn, max_distance, min_votes unchanged; R17.10 also excludes saturation of the fixed-point weights.'
 NOT_DECIDED = ["permutation invariance as an input-output statement", "tie handling",
                "optimality of pathfinding::kuhn_munkres (trusted)"]
 ASSUMPTIONS = ["itertools::into_group_map and std sort behave as documented", "rustc nightly MIR construction"]
@@ -57,3 +58,9 @@ def _wiring(ctx):
     import wiring
     ctx.rule('R17.6', 'configuration plumbing: same-named fields / parameters / setters / call arguments are not crossed')
     ctx.floor('R17.6', wiring.run(ctx, 'R17.6', {'topn', 'max_distance', 'min_votes'}), 5)
+    ctx.rule('R17.11', 'the engines are configured with the values the caller passed: TopNVoting::new / BestFitVoting::new store '
+                       'topn, max_distance, min_votes unchanged ("at most N" includes N = 0)')
+    n = 0
+    for path in ('track::voting::topn::TopNVoting::new', 'track::voting::best::BestFitVoting::new'):
+        n += wiring.identity_ctor(ctx, 'R17.11', path)
+    ctx.evaluated('R17.11', n, 5)
